@@ -244,6 +244,18 @@ func (matrix *DenseIntMatrix) Tip() {
   matrix.rowMax, matrix.colMax = matrix.colMax, matrix.rowMax
 }
 func (matrix *DenseIntMatrix) AsVector() Vector {
+  if matrix.cols < matrix.colMax || matrix.rows < matrix.rowMax {
+    // this is a view on a larger matrix, copy the elements
+    // that belong to it
+    n, m := matrix.Dims()
+    v := make([]int, n*m)
+    for i := 0; i < n; i++ {
+      for j := 0; j < m; j++ {
+        v[i*m + j] = matrix.values[matrix.index(i, j)]
+      }
+    }
+    return DenseIntVector(v)
+  }
   return DenseIntVector(matrix.values)
 }
 func (matrix *DenseIntMatrix) storageLocation() uintptr {
@@ -333,7 +345,7 @@ func (matrix *DenseIntMatrix) IsSymmetric(epsilon float64) bool {
   return true
 }
 func (matrix *DenseIntMatrix) AsConstVector() ConstVector {
-  return DenseIntVector(matrix.values)
+  return matrix.AsVector()
 }
 /* implement ScalarContainer
  * -------------------------------------------------------------------------- */
